@@ -344,6 +344,27 @@ def _names_with_tag(evs, j, i, tag, st):
     return {k for k, v in st.env.items() if tag in v}
 
 
+def _resolve_snapshot(fn, node):
+    from .idioms import local_defs
+    d = local_defs(fn.node)
+    hops = 0
+    while isinstance(node, ast.Name) and len(d.get(node.id, [])) == 1 and d[node.id][0] is not None and hops < 3:
+        node = d[node.id][0]
+        hops += 1
+    return ast.unparse(node).replace(' ', '')
+
+
+def _counts_downstreams(fn, count_src):
+    """the retain count is len(self.downstreams), or len(<local snapshot of self.downstreams>)"""
+    try:
+        node = ast.parse(count_src, mode='eval').body
+    except SyntaxError:
+        return False
+    if not (isinstance(node, ast.Call) and isinstance(node.func, ast.Name) and node.func.id == 'len' and len(node.args) == 1):
+        return False
+    return _resolve_snapshot(fn, node.args[0]) in ('self.downstreams', 'list(self.downstreams)', 'tuple(self.downstreams)')
+
+
 # ----------------------------------------------------------------------------- Stream._emit
 def check_emit(ctx, R):
     """EMIT-BALANCE, NO-REL-ON-FAIL and EMIT-REL-TIMING on Stream._emit"""
@@ -364,7 +385,7 @@ def check_emit(ctx, R):
         iters = [i for i, e in enumerate(evs) if e.kind == 'ITER']
         md_true = cond_true(evs, len(evs), lambda a: a == 'metadata')
         if md_true:
-            if len(rets) != 1 or rets[0].c is None or rets[0].c.replace(' ', '') != 'len(self.downstreams)':
+            if len(rets) != 1 or rets[0].c is None or not _counts_downstreams(fn, rets[0].c):
                 bal_ok, bal_detail, bal_line, bal_evs = False, 'up-front retain is not exactly len(self.downstreams) (found %s)' % (
                     [r.c for r in rets]), (rets[0].line if rets else fn.node.lineno), evs
         elif rets:
@@ -388,10 +409,9 @@ def check_emit(ctx, R):
                 between = seg[calls[0] + 1:rels[0]]
                 if not any(e.kind == 'SUS' for e in between):
                     timing_bad = (seg[rels[0]].line, evs)
-    # the loop iterates the same field whose length was retained
-    import ast
+    # the loop iterates the same field whose length was retained (possibly through one local snapshot)
     loops = [n for n in ast.walk(fn.node) if isinstance(n, ast.For)]
-    srcs = [ast.unparse(l.iter).replace(' ', '') for l in loops]
+    srcs = [_resolve_snapshot(fn, l.iter) for l in loops]
     if not any(s in ('list(self.downstreams)', 'self.downstreams', 'tuple(self.downstreams)') for s in srcs):
         bal_ok, bal_detail, bal_line = False, 'delivery loop does not iterate self.downstreams (found %s)' % srcs, fn.node.lineno
     if n_loop_paths == 0:
